@@ -38,19 +38,26 @@ def main():
     assert r.returncode == 0, r.stdout
     verdict = {}
     try:
-        place = meta.get("demo_place", "")
+        place = meta.get("demo_place") or ""
+        cmd = meta.get("demo_cmd", "")
         m = re.search(r"([\w./-]+_test\.go|[\w./-]+\.go)\s*$", place.strip().rstrip(".")) or re.search(r"to\s+([\w./-]+\.go)", place)
+        if not m:
+            m = re.search(r"cp\s+\S+\s+(\S+_test\.go)", cmd)
+        if not m:
+            head = "".join(open(os.path.join(src, "demo_test.go")).readlines()[:25])
+            m = re.search(r"((?:cesium|aspen|core|x/go|freighter/go|arc/go)/[\w./-]+_test\.go)", head)
         demo_dst = None
         if m:
-            demo_dst = os.path.join(wt, m.group(1))
-        cmd = meta.get("demo_cmd", "")
+            rel = re.sub(r"^/tmp/seed-c\d\d/", "", m.group(1))
+            demo_dst = os.path.join(wt, rel)
+        cmd = re.sub(r"^cp\s+\S+\s+\S+\s*&&\s*", "", cmd)
         cmd = re.sub(r"/tmp/seed-c\d\d", wt, cmd)
         if not cmd.startswith("cd "):
             cmd = "cd %s && %s" % (wt, cmd)
         if demo_dst and cmd:
             os.makedirs(os.path.dirname(demo_dst), exist_ok=True)
             shutil.copy(os.path.join(src, "demo_test.go"), demo_dst)
-            r0 = sh(cmd)
+            r0 = sh(cmd, cwd=wt)
             verdict["demo_passes_without_change"] = r0.returncode == 0
             if r0.returncode != 0:
                 print("demo without change FAILED:\n", r0.stdout[-1500:])
@@ -60,7 +67,7 @@ def main():
             print(r.stdout)
             return
         if demo_dst and cmd:
-            r1 = sh(cmd)
+            r1 = sh(cmd, cwd=wt)
             verdict["demo_fails_with_change"] = r1.returncode != 0
             os.remove(demo_dst)
         if not skip_suite:
